@@ -21,6 +21,7 @@ struct GSession {
     bool has_unknown = false;
     long poison_ref = -1;	// unknown parameter named only by a refused standard of this session
     bool rect = false;		// 2x1 (U / E types) or 1x2 (T types) calibration
+    bool dead = false;		// the instrument reads zero at one of the later frequencies
 };
 
 struct CGen {
@@ -114,7 +115,8 @@ Plan cal_gen(const std::string &check, const std::string &tier, uint64_t seed, l
 	S.todo.clear(); S.next = 0; S.applies = 0; S.has_unknown = false; S.poison_ref = -1; S.fv_late = (c10 || c16) && rng.chance(0.2); S.fv_done = !S.fv_late;
 	S.name = (int)rng.below(8);
 	// a VNA that drives (or detects) on one of its two ports only
-	S.rect = S.P == 2 && cls != W16 && !c12 && rng.chance(c10 ? 0.05 : 0.15);
+	S.rect = S.P == 2 && !c12 && rng.chance(c10 ? 0.05 : 0.15);	// (16-term types too: T16 as 1x2, U16 as 2x1)
+	S.dead = !S.rect && !c12 && S.F >= 2 && rng.chance(0.04);
 	bool need_full = cls != W8 || S.rect;
 	auto shape = [&]() { return need_full ? true : rng.chance(0.5); };
 	int P = S.P;
@@ -144,6 +146,15 @@ Plan cal_gen(const std::string &check, const std::string &tier, uint64_t seed, l
 	    for (size_t k = order.size(); k > 1; --k) std::swap(order[k - 1], order[(size_t)rng.below((long)k)]);
 	    std::vector<int> tree = {root};
 	    for (int p : order) { int q = tree[(size_t)rng.below((long)tree.size())]; GStd st{2, shape(), (int)rng.below(3), q, p, {0, 0, 0, 0}, 1.0}; if (rng.chance(0.4)) std::swap(st.p1, st.p2); S.todo.push_back(st); tree.push_back(p); }
+	} else if (cls == W16 && P == 2 && S.rect) {
+	    // eleven generic fully specified two-port standards (nine would do)
+	    for (int q = 0; q < 11; ++q) {
+		long m[4];
+		for (int k = 0; k < 4; ++k) { bool diag = k == 0 || k == 3; double mag = diag ? 0.9 * rng.uni() : 0.15 + 0.8 * rng.uni(), ph = 2 * M_PI * rng.uni(); m[k] = mkscalar(mag * cos(ph), mag * sin(ph), S.sid); }
+		GStd st{3, true, (int)rng.below(2), 1, 2, {m[0], m[1], m[2], m[3]}, 1.0};
+		if (rng.chance(0.3)) { std::swap(st.p1, st.p2); }
+		S.todo.push_back(st);
+	    }
 	} else if (cls == W16 && P == 2) {
 	    int combos[8][2] = {{2, 2}, {0, 0}, {1, 1}, {0, 1}, {1, 0}, {0, 2}, {2, 1}, {1, 2}};
 	    for (auto &cb : combos) {
@@ -221,6 +232,20 @@ Plan cal_gen(const std::string &check, const std::string &tier, uint64_t seed, l
 	    int p = (int)rng.range(1, P);
 	    S.todo.push_back(GStd{0, shape(), (int)rng.below(2), p, 0, {v, 0, 0, 0}, 1.0});
 	}
+	// two reflects correlated with known ones whose sigma vectors, on different grids and far from linear, have a knot at every
+	// calibration frequency (compared at apply time with a twin that is given the knot values one frequency at a time)
+	if ((c10 ? rng.chance(0.2) : rng.chance(0.04)) && cls != W16 && !c12 && !S.rect && S.F >= 2) {
+	    int m1 = (int)rng.range(1, 2), m2 = m1 + (int)rng.range(1, 2);
+	    for (int m : {m1, m2}) {
+		double ph = 2 * M_PI * rng.uni(), mag = 0.3 + 0.6 * rng.uni();
+		long other = mkscalar(mag * cos(ph), mag * sin(ph), S.sid);
+		Op o = g.mk("mkcorr", {other, (long)(S.F - 1) * m + 1, 0, 1, (long)rng.below(60)}, S.sid);
+		o.d = {S.fmin, S.fmax, 0.02 + 0.05 * rng.uni(), 0.01 * (2 * rng.uni() - 1), 0.01 * (2 * rng.uni() - 1)};
+		plan.ops.push_back(o);
+		long cp = g.nparams++;
+		S.todo.push_back(GStd{0, shape(), (int)rng.below(2), (int)rng.range(1, P), 0, {cp, 0, 0, 0}, 1.0});
+	    }
+	}
 	// a reflect correlated with a known one (vnacal_make_correlated_parameter): its sigma vector covers the band, or
 	// misses it at one end (then the standard has to be refused)
 	if ((c10 ? rng.chance(0.3) : rng.chance(0.06)) && cls != W16 && !c12) {
@@ -262,7 +287,7 @@ Plan cal_gen(const std::string &check, const std::string &tier, uint64_t seed, l
     };
 
     auto emit_new = [&](GSession &S) {
-	Op o = g.mk("new", {S.sid, S.type, S.P, S.F, S.ab ? 1 : 0, (long)rng.below(1000000), rng.chance(0.3) ? 1 : 0, S.fv_late ? 1 : 0, S.rect ? 1 : 0}, S.sid);
+	Op o = g.mk("new", {S.sid, S.type, S.P, S.F, S.ab ? 1 : 0, (long)rng.below(1000000), rng.chance(0.3) ? 1 : 0, S.fv_late ? 1 : 0, S.rect ? (world_class_of(S.type) == W16 ? 2 : 1) : 0, S.dead ? 1 : 0}, S.sid);
 	o.d = {S.fmin, S.fmax, rng.chance(0.5) ? 50.0 : 75.0, rng.chance(0.8) ? 0.0 : 5.0};
 	plan.ops.push_back(o);
     };
@@ -327,7 +352,7 @@ Plan cal_gen(const std::string &check, const std::string &tier, uint64_t seed, l
 		    }
 		    continue;
 		}
-		if (!c12 && S.fv_done && rng.chance(0.15)) plan.ops.push_back(g.mk("merror", {S.sid, (long)rng.below(4), (long)rng.below(2), rng.chance(0.35) ? (long)rng.range(1, 2) : 0L}, S.sid));
+		if (!c12 && S.fv_done && rng.chance(S.dead ? 0.6 : 0.15)) plan.ops.push_back(g.mk("merror", {S.sid, (long)rng.below(4), (long)rng.below(2), rng.chance(0.35) ? (long)rng.range(1, 2) : 0L}, S.sid));
 		Op so = g.mk("solve", {S.sid}, S.sid);
 		if (faults && rng.chance(0.3)) { Fault f; f.t = "alloc.vna"; f.n = rng.range(1, 80); so.f.push_back(f); plan.ops.push_back(so); so.f.clear(); }
 		plan.ops.push_back(so);
@@ -392,7 +417,7 @@ Plan cal_gen(const std::string &check, const std::string &tier, uint64_t seed, l
 		if (v < 0.55) { long fp = rng.chance(0.2) ? 1000 : rng.range(1, 40), dp = rng.chance(0.25) ? 1000 : rng.range(1, 40); if (rng.chance(0.03)) fp = 0; plan.ops.push_back(g.mk("vprec", {fp, dp}, task)); continue; }
 		if (v < 0.75) {
 		    Op o = g.mk("vsave", {rng.chance(0.15) ? 1 : 0}, task);
-		    o.s = {strf("c%d.vnacal", (int)rng.below(2))};
+		    o.s = {std::string(rng.pick(std::vector<std::string>{"c0.vnacal", "c1.vnacal", "c0.vnacal.bak", "c1"}))};
 		    if (faults && rng.chance(0.3)) { Fault f; double w2 = rng.uni(); if (w2 < 0.4) { f.t = "alloc.vna"; f.n = rng.range(1, 40); } else if (w2 < 0.6) { f.t = "alloc.yaml"; f.n = rng.range(1, 200); } else if (w2 < 0.85) { f.t = "write.err"; f.n = rng.range(0, 3000); f.e = ENOSPC; } else if (w2 < 0.93) f.t = "close.err"; else { f.t = "open.fail"; f.e = EACCES; } o.f.push_back(f); }
 		    plan.ops.push_back(o);
 		    ++nsaved;
@@ -400,7 +425,7 @@ Plan cal_gen(const std::string &check, const std::string &tier, uint64_t seed, l
 		}
 		if (v < 0.9 && nsaved > 0) {
 		    Op o = g.mk("vload", {0}, task);
-		    o.s = {strf("c%d.vnacal", (int)rng.below(2))};
+		    o.s = {std::string(rng.pick(std::vector<std::string>{"c0.vnacal", "c1.vnacal", "c0.vnacal.bak", "c1"}))};
 		    if (faults && rng.chance(0.3)) { Fault f; double w2 = rng.uni(); if (w2 < 0.4) { f.t = "alloc.vna"; f.n = rng.range(1, 120); } else if (w2 < 0.6) { f.t = "alloc.yaml"; f.n = rng.range(1, 300); } else if (w2 < 0.8) { f.t = "read.eio"; f.n = rng.range(0, 3000); } else { f.t = "read.eof"; f.n = rng.range(0, 3000); } o.f.push_back(f); }
 		    plan.ops.push_back(o);
 		    // sessions do not survive the restart
@@ -429,12 +454,28 @@ Plan cal_gen(const std::string &check, const std::string &tier, uint64_t seed, l
 	if (S.state == 2) { plan.ops.push_back(g.mk("addcal", {S.sid, S.name}, S.sid)); S.state = 3; }
 	if (S.state == 3 && S.applies == 0) plan.ops.push_back(g.mk("apply", {S.name, (long)rng.below(1000000), (long)rng.below(3), 0, c17 || c16 ? (long)rng.below(1 << 12) : 0}, S.sid));
     }
+    // now and then the calibration table is filled up to and beyond its allocation steps (8, 16): the same solved
+    // session is solved and added again under many names, then the highest indices are deleted and some added back
+    if (!c12 && !c10 && rng.chance(c16 ? 0.08 : 0.04)) {
+	for (auto &S : sess) {
+	    if (S.state != 3) continue;
+	    int total = (int)rng.pick(std::vector<long>{8, 9, 16, 17, 12});
+	    std::vector<long> names; for (long q = 0; q < 20; ++q) names.push_back(q);
+	    for (size_t k = names.size(); k > 1; --k) std::swap(names[k - 1], names[(size_t)rng.below((long)k)]);
+	    for (int q = 0; q < total; ++q) { plan.ops.push_back(g.mk("solve", {S.sid}, S.sid)); plan.ops.push_back(g.mk("addcal", {S.sid, names[(size_t)q]}, S.sid)); }
+	    int dels = (int)rng.range(1, 3);
+	    for (int q = 0; q < dels; ++q) { plan.ops.push_back(g.mk("delcal", {names[(size_t)(total - 1 - q)], -1}, nsess + 1)); if (rng.chance(0.5)) plan.ops.push_back(g.mk("query", {0}, nsess + 1)); }
+	    if (rng.chance(0.6)) { plan.ops.push_back(g.mk("solve", {S.sid}, S.sid)); plan.ops.push_back(g.mk("addcal", {S.sid, names[(size_t)rng.below(20)]}, S.sid)); }
+	    plan.ops.push_back(g.mk("apply", {names[0], (long)rng.below(1000000), (long)rng.below(3), 0, 0}, S.sid));
+	    break;
+	}
+    }
     if (c07) {
 	for (int q = (int)rng.below(4); q > 0; --q) prop_op(nsess + 1);
 	if (rng.chance(0.6)) { long fp = rng.chance(0.3) ? 1000 : rng.range(1, 40), dp = rng.chance(0.4) ? 1000 : rng.range(4, 40); plan.ops.push_back(g.mk("vprec", {fp, dp}, nsess + 1)); }
 	Op sv = g.mk("vsave", {rng.chance(0.15) ? 1 : 0}, nsess + 1); sv.s = {"final.vnacal"}; plan.ops.push_back(sv);
 	Op ld = g.mk("vload", {0}, nsess + 1); ld.s = {"final.vnacal"}; plan.ops.push_back(ld);
-	if (rng.chance(0.5)) { Op sv2 = g.mk("vsave", {0}, nsess + 1); sv2.s = {"again.vnacal"}; plan.ops.push_back(sv2); Op ld2 = g.mk("vload", {0}, nsess + 1); ld2.s = {"again.vnacal"}; plan.ops.push_back(ld2); }
+	if (rng.chance(0.5)) { Op sv2 = g.mk("vsave", {0}, nsess + 1); std::string n2 = rng.chance(0.5) ? "again.vnacal" : "final.vnacal.v2"; sv2.s = {n2}; plan.ops.push_back(sv2); Op ld2 = g.mk("vload", {0}, nsess + 1); ld2.s = {n2}; plan.ops.push_back(ld2); }	// (the second name now and then extends the first)
     }
     plan.ops.push_back(g.mk("query", {0}, nsess + 1));
     return plan;
